@@ -208,6 +208,7 @@ pub fn map_err_to<T, E, F>(r: Result<T, E>, e: F) -> (o: Result<T, F>)
 // GHOST-ONLY ADDITION: an extra last parameter `Ghost(t): Ghost<CTree>` (the tree the bytes at the reader
 // position encode) and, at the recursive call, the argument `Ghost(kid_tree(t, k__ - 1))`.  Erased at run time.
 //@extract fn bigtools/src/bbi/bbiread.rs read_chrom_tree_block
+//@rule R16
 //@rule R8
 //@rule R15
 //@sub /read_chrom_tree_block<R: SeekableRead>\(\s*f: &mut R,/ => read_chrom_tree_block(f: &mut VRead, min=1
@@ -391,6 +392,7 @@ pub fn map_err_to<T, E, F>(r: Result<T, E>, e: F) -> (o: Result<T, F>)
 // `// TODO: could instead store this ...` / `file.seek(SeekFrom::Start(header.chromosome_tree_offset))?;` to the final
 // `Ok(info)`.  GHOST-ONLY ADDITION: last parameter `Ghost(t): Ghost<CTree>`, passed on to read_chrom_tree_block.
 //@extract fn bigtools/src/bbi/bbiread.rs read_info
+//@rule R16
 //@rule R8
 //@rule R6
 //@presub /let mut file = file\.raw_reader\(\);.*let zoom_headers = read_zoom_headers\(file, &header\)\?;/ => let endianness = header.endianness; min=1
